@@ -648,6 +648,69 @@ def build(run):
         return proved("exec+oracle", vcs=n, sample=f"{n} traversals in series sharing a visited set (initially empty / unrelated / partly filled)")
     run.add("traversal/caller-supplied-visited-set", shared_visited, kind="values")
 
+    # ---- the CUTOFF post-order traversal (what map_expr_dags runs for handlers that do not take their operands) over a list of expressions sharing one visited
+    # set: every distinct node is yielded once over the whole series, also when an expression of the list is itself a node of a cutoff type
+    def cutoff_series():
+        x, y, z = Anchor("x"), Anchor("y"), Anchor("z")
+        n1 = N1(N2(x, y))
+        cut = [False] * Expr._ufl_num_typecodes_
+        for T_ in (Anchor, N1):
+            cut[T_._ufl_typecode_] = True
+
+        def oracle(series):
+            seen, out = set(), []
+
+            def rec(e):
+                if e in seen:
+                    return
+                if not cut[e._ufl_typecode_]:
+                    for o_ in e.ufl_operands:
+                        rec(o_)
+                seen.add(e)
+                out.append(e)
+            for e in series:
+                rec(e)
+            return out
+        n = 0
+        for series in ([x, N2(x, y)], [N2(x, y), x, y], [n1, N2(n1, z)], [N2(n1, z), n1], [x, x, N3(x, y, x)], [N1(x), N2(N1(Anchor("x")), x), N1(x)], [z, N2(N2(x, z), N1(z)), N2(x, z)]):
+            vis = set()
+            got = []
+            n += 1
+            for e in series:
+                before_ = set(vis)
+                part = list(TR.cutoff_unique_post_traversal(e, cut, vis))
+                got += part
+                want_part = [w_ for w_ in oracle([e]) if w_ not in before_ or w_ == e]        # the root of a traversal is always yielded (documented behaviour)
+                if len(part) != len(set(part)) or set(part) != set(want_part):
+                    return violated(f"cutoff_unique_post_traversal of {key(e)} in the series {[key(e_) for e_ in series]} (shared visited set) yields {[key(g_) for g_ in part]}; "
+                                    f"expected the nodes not visited before and the root: {[key(w_) for w_ in want_part]}",
+                                    replay={"series": [repr(key(e_)) for e_ in series], "expr": repr(key(e)), "got": [repr(key(g_)) for g_ in part]}, reproduced=True, backend="exec")
+                if not set(part) <= vis:
+                    return violated(f"cutoff_unique_post_traversal of {key(e)} does not record the nodes it yielded in the caller's visited set", replay={"expr": repr(key(e))},
+                                    reproduced=True, backend="exec")
+            # map_expr_dags over the same list calls each handler once per distinct node
+            calls = []
+
+            class Rec(MultiFunction):
+                def expr(self, o, *ops):
+                    calls.append(o)
+                    return ("op", type(o).__name__, ops)
+
+                def anchor(self, o):
+                    calls.append(o)
+                    return ("t", o._name)
+
+                def n1(self, o):
+                    calls.append(o)
+                    return ("cut", key(o))
+            res = map_expr_dags(Rec(), list(series))
+            n += 1
+            if len(calls) != len(set(calls)) or res != [rec_apply(e_, cut=True) for e_ in series]:
+                return violated(f"map_expr_dags over {[key(e_) for e_ in series]}: {len(calls)} handler calls for {len(set(calls))} distinct nodes, or a result differs from recursive application",
+                                replay={"series": [repr(key(e_)) for e_ in series]}, reproduced=True, backend="exec")
+        return proved("exec+oracle", vcs=n, sample=f"{n} series of expressions (cutoff-type roots first / last / repeated) sharing a visited set")
+    run.add("traversal/cutoff-traversal-over-a-series-of-expressions", cutoff_series, kind="values")
+
     # ---- bounded: all DAGs up to N nodes
     N = 6 if thorough else 5
 
